@@ -28,6 +28,22 @@ def classify(q, e, kind):
 
 def body(ch):
     part, cul, q, ref = sc.build(ch)
+    if part == 'normaliser':
+        # the normalisation itself, exhaustively over every Unicode code point: it must be length-preserving, and every code
+        # point it rewrites must be one the independent normaliser of this driver knows (otherwise texts cannot be compared)
+        bad = sc.S['normaliser_bad']
+        unknown = [c for c in sc.S['normaliser_touched'] if c not in sc.FULLWIDTH]
+        if bad:
+            c, cs, out = bad[0]
+            ch.fail('normaliser|length-changing-rewrite|U+%04X' % ord(c), {'code_point': 'U+%04X' % ord(c), 'char': c, 'case_sensitive': cs,
+                                                                          'image': out, 'all': ['U+%04X' % ord(x[0]) for x in bad][:20]})
+        elif unknown:
+            ch.fail('normaliser|undocumented-rewrite|U+%04X' % ord(unknown[0]), {'code_points': ['U+%04X' % ord(c) for c in unknown][:20]})
+        else:
+            ch.ok(case=('normaliser',), nontrivial=True, outcome='normaliser', evals=2 * (0x110000 - 2048),
+                  sample={'normaliser': 'all %d code points x 2 case modes keep length 1' % (0x110000 - 2048),
+                          'rewritten_code_points': len(sc.S['normaliser_touched'])})
+        return
     n_calls = 0
     for rec, mt, ents in sc.calls(cul, q, ref):
         n_calls += 1
